@@ -290,6 +290,7 @@ def _variants():
         V("memo-callee-impure", insert_stmt(PE, "Perm.left_floor_and_ceiling", "smallest, biggest = (-1, -1)", "random.random()", "after"), "fire", "C01-M2"),
         V("memo-table-mutated", insert_stmt(PE, "Perm.occurrences_in", "occurrence_indices = [0] * n", "pattern_details.reverse()", "before"), "fire", "C01-M3"),
         V("memo-table-leaked", insert_stmt(PE, "Perm.get_perm", "return self", "return self._pattern_details()", "before"), "fire", "C01-M3"),
+        V("new-object-state", insert_stmt(PE, "Perm.inverse", "result = [0] * len(self)", "self._inverse_calls = getattr(self, '_inverse_calls', 0) + 1", "before"), "undecided", note="unreviewed per-object state: neither accused nor passed"),
         V("scratch-buffer-on-object", [replace_stmt(PE, "Perm.occurrences_in", "occurrence_indices = [0] * n", "if getattr(self, '_scratch', None) is None:\n    self._scratch = [0] * n\noccurrence_indices = self._scratch")], "fire", "C01-M4"),
         V("search-nonstrict-recursion", replace_expr(PE, "Perm.occurrences_in", "occurrences(i + 1, k + 1)", "occurrences(i, k + 1)"), "fire", "C01-O1"),
         V("search-skips-position", replace_stmt(PE, "Perm.occurrences_in", "i, elements_remaining = (i + 1, elements_remaining - 1)", "i, elements_remaining = (i + 2, elements_remaining - 2)"), "fire", "C01-O1"),
@@ -491,3 +492,52 @@ def run(ctx: Ctx) -> None:  # noqa: F811
 
 
 FLOORS["C01-M4"] = 1
+
+
+# ---------------------------------------------------------------------------- M5: no unreviewed per-object state
+
+
+def rule_m5(ctx: Ctx) -> None:
+    """Pattern objects carry exactly the reviewed state: every attribute store on an instance of the
+    Perm / MeshPatt family lies in a constructor or is the recognised compute-on-miss memo.  Any other
+    per-object state would need its own history-independence argument: the check then refuses to decide."""
+    repo = ctx.repo
+    family = {c.name for c in repo.subclasses("Patt")}
+    details = repo.method("Perm", "_pattern_details")
+    memo_attr = None
+    if details is not None:
+        memo = find_self_memo(details)
+        memo_attr = memo[0] if memo else None
+    n = 0
+    for fi in repo.all_funcs():
+        top = fi
+        while top.parent is not None:
+            top = top.parent
+        if top.cls is None or top.cls.name not in family:
+            continue
+        for node in walk_no_nested(fi.node):
+            if isinstance(node, (ast.Assign, ast.AugAssign, ast.AnnAssign)):
+                tgts = node.targets if isinstance(node, ast.Assign) else [node.target]
+                for t in tgts:
+                    for leaf in (t.elts if isinstance(t, ast.Tuple) else [t]):
+                        if isinstance(leaf, ast.Attribute):
+                            n += 1
+                            if top.name in ("__init__", "__new__"):
+                                continue
+                            if leaf.attr == memo_attr:
+                                continue  # judged by M1
+                            raise AnalysisError(f"{fi.where}: stores `{unparse(leaf)}` outside a constructor – unreviewed per-object state; history independence of searches with this object is no longer decided by M1–M4")
+            if isinstance(node, ast.Call) and call_name(node) in (("setattr",), ("object", "__setattr__")):
+                raise AnalysisError(f"{fi.where}: uses setattr – unreviewed per-object state")
+    ctx.ok("C01-M5", "permuta.patterns", f"{n} attribute stores in the pattern classes, all in constructors or the reviewed memo")
+
+
+_OLD_RUN3 = run
+
+
+def run(ctx: Ctx) -> None:  # noqa: F811
+    _OLD_RUN3(ctx)
+    ctx.run(rule_m5, ctx)
+
+
+FLOORS["C01-M5"] = 1
